@@ -11,6 +11,27 @@ from props.filter_common import attrs_of, cps, parse_impl
 STRUCT = list("()&|!=*\\:~<>; \n\t\r\x00\x0b\x1c") + ["\u3000", "é", "\udcff", "\ud800", "\U0001f600", "dn", "(", ")"]
 
 
+# characters that Unicode-aware matching (re.IGNORECASE, \d, \w, str.isalpha / isdigit) confuses with ASCII
+CONFUSE = {"s": "\u017f", "S": "\u017f", "k": "\u212a", "K": "\u212a", "i": "\u0131", "I": "\u0130"}
+CONF_DIGITS = ["\u0663", "\uff11", "\u00b2", "\u0967"]
+CONF_LETTERS = ["\uff41", "\u00aa", "\u0430", "\u00e9", "\u017f", "\u212a", "\u0131", "\u0130"]
+
+
+def confuse(rng, s):
+    idx = [i for i, ch in enumerate(s) if ch.isascii() and ch.isalnum()]
+    if not idx:
+        return s
+    i = rng.choice(idx)
+    ch = s[i]
+    if ch.isdigit():
+        new = rng.choice(CONF_DIGITS)
+    elif ch in CONFUSE and rng.random() < 0.7:
+        new = CONFUSE[ch]
+    else:
+        new = rng.choice(CONF_LETTERS)
+    return s[:i] + new + s[i + 1:]
+
+
 class C15(Prop):
     id = "C15"
     prop_file = "Props/C15"
@@ -22,7 +43,7 @@ class C15(Prop):
     rule = (
         "seeded strings: every kind of single-character edit (insert / delete / replace with structural characters, "
         "control characters, newlines, non-ASCII, lone surrogates) of RFC 4515 sentences incl. non-ASCII ones, random "
-        "text over a structural alphabet, unbalanced and very deep nesting (to 3000 levels), trailing garbage after a "
+        "replacement of one ASCII letter/digit by a Unicode look-alike or case-fold partner (U+017F, U+212A, U+0130, U+0131, non-ASCII digits), text over a structural alphabet, unbalanced and very deep nesting (to 3000 levels), trailing garbage after a "
         "complete filter; checked: only FilterSyntaxError escapes, offset/length inside the (UTF-8 encoded, stripped) "
         "input, accepted filters have RFC 4512-valid attribute descriptions / matching rules and their own text form "
         "parses back to the same filter; compared with the extracted model; non-trivial = not a plain sentence"
@@ -47,6 +68,9 @@ class C15(Prop):
             if r < 0.6:
                 tree = rfc4515.g_tree(rng, rng.choice([0, 1, 2, 3]))
                 s = rfc4515.sentence(rng, tree, spaces=rng.choice([0, 0, 0.4])).decode("utf-8", errors="surrogateescape")
+                if rng.random() < 0.25:
+                    out.append({"kind": "confusable", "text": confuse(rng, s)})
+                    continue
                 for _ in range(rng.choice([1, 1, 1, 2, 3])):
                     i = rng.randrange(len(s) + 1)
                     op = rng.random()
